@@ -51,6 +51,11 @@ func (f *Ash) Call(s *slip.Scope, args slip.List, depth int) (result slip.Object
 		slip.TypePanic(s, depth, "shift", args[1], "fixnum")
 	}
 	sh := int(shift)
+	if sh < -(1 << 40) {
+		// More bits than any integer has. Also keeps -sh from overflowing
+		// for most-negative-fixnum.
+		sh = -(1 << 40)
+	}
 	if slip.ArrayMaxDimension < sh && args[0] != slip.Fixnum(0) {
 		slip.ErrorPanic(s, depth, "a shift of %d bits is too large", sh)
 	}
